@@ -38,6 +38,7 @@ THEOREMS = [
     "FaxVerif.C18.escape_table_ok",
     "FaxVerif.C18.escape_shape_ok",
     "FaxVerif.C18.book_lines_ok",
+    "FaxVerif.C18.name_slots_present",
     "FaxVerif.C18.str_roundtrip",
     "FaxVerif.C18.str_const_ok",
     "FaxVerif.C18.str_in_context",
@@ -1012,8 +1013,14 @@ def book_compare(ctx, case, backend, tree, impl_lines: Dict[str, List[str]], mod
             where.append({"case": case, "backend": backend, "which": which, "want": want, "line": il[k], "key": known_key})
     # second, table-independent oracle: the strings the implementation's booking lines carry
     names = [tree] + [m["name"] for m in model["book"] if m["name"] is not None]
-    reqs.append({"op": "linestrs", "lines": [cp(l) for l in impl_lines["book"]]})
+    # (the leaf's variable is cut off: in a generated file it repeats the column name as an identifier, which is C02's business)
+    scan = [l[: l.rfind(", &")] if ", &" in l else l for l in impl_lines["book"]]
+    reqs.append({"op": "linestrs", "lines": [cp(l) for l in scan]})
     where.append({"case": case, "backend": backend, "which": "book", "carried": names, "line": " | ".join(impl_lines["book"]), "key": known_key})
+    if backend == "atlas":
+        # the ATLAS job finds its tree by name when filling (`tree("…")->Fill()`): the fill lines must carry the tree name too
+        reqs.append({"op": "linestrs", "lines": [cp(l) for l in impl_lines["fill"]]})
+        where.append({"case": case, "backend": backend, "which": "fill", "carried": [tree], "line": " | ".join(impl_lines["fill"]), "key": known_key})
     return reqs, where
 
 
@@ -1029,7 +1036,7 @@ def book_judge(ctx, where, answers) -> int:
                 bad += 1
                 ctx.violation(
                     key=w["key"] or f"name:{w['backend']}:carried:{missing[0]!r}",
-                    what=f"on {w['backend']}: the booking lines `{w['line']}` do not carry the name(s) {missing!r} as C++ string literals (string literals found: {lits!r})",
+                    what=f"on {w['backend']}: the {w['which']} lines `{w['line']}` do not carry the name(s) {missing!r} as C++ string literals (string literals found: {lits!r})",
                     case=w["case"],
                     observed={"lines": w["line"], "string_literals": lits},
                     how="visitor.create_book_ttree_obj(tree, leaves).emit(...) / the pipeline with ResultTTree(..., names, tree, file)",
@@ -1473,13 +1480,23 @@ def run_case(ctx, case: Dict[str, Any], report: bool) -> int:
     return 1 if len(ctx.violations) + len(ctx.known_hits) > before else 0
 
 
+def _tick(ctx, label: str):
+    import time
+
+    now = time.time()
+    ctx.extra_cov.setdefault("phase_seconds", {})[label] = round(now - getattr(ctx, "_c18_t", ctx.t0), 1)
+    ctx._c18_t = now
+
+
 def run(ctx):
     logging.disable(logging.WARNING)
+    _tick(ctx, "translate+build+audit")
     sys.set_int_max_str_digits(0) if hasattr(sys, "set_int_max_str_digits") else None
     thorough = ctx.tier == "thorough"
     workers = min(12, os.cpu_count() or 4)
     findings_stream(ctx)
     corpus_stream(ctx)
+    _tick(ctx, "findings+corpus")
     ctx.check_time()
     # unit stream: the six constants of the repo's tests first, then generated ones
     prelude = ['say "hi"\\n', -1234567890, 1.5e-07, float("inf"), "caf\u00e9 \U0001f600?", 1.7976931348623157e308, None]
@@ -1489,14 +1506,20 @@ def run(ctx):
     for i in range(n_unit):
         consts.append((gen_const(ctx.rng), backs[0] if i % 4 else backs[1 + (i // 4) % 2]))
     recs = unit_stream(ctx, consts)
+    _tick(ctx, "unit")
     ctx.check_time()
     pipeline_stream(ctx, pipeline_cases(ctx, 3000 if thorough else 240))
+    _tick(ctx, "pipeline")
     ctx.check_time()
     book_stream(ctx, 6000 if thorough else 600)
+    _tick(ctx, "book")
     names_pipeline_stream(ctx, 900 if thorough else 90)
+    _tick(ctx, "names")
     ctx.check_time()
     echo_stream(ctx, recs, 8000 if thorough else 400, workers)
+    _tick(ctx, "g++ echo")
     lexer_validation(ctx, thorough)
+    _tick(ctx, "lexer validation")
     ctx.extra_cov["exhaustive"] = False
     ctx.extra_cov["exhaustive_part"] = "as_cpp_string_literal on every single Unicode scalar value (1,112,064 characters) when regenerating the escape table; the booking/fill emitters of all three backends on sentinel names"
     ctx.extra_cov["populations"] = {
